@@ -8,7 +8,7 @@ PY = "/venv/bin/python"
 BASE = ("Exploration: generated-input search (hypothesis, seeded by VERIF_SEED, sharded over 16 processes) plus complete "
         "enumeration of the finite sub-domains named below, against an oracle that shares no code with the repository; "
         "most clauses run a second time under `python -O`; thread clauses run under a deterministic scheduler that owns "
-        "the interleaving. Sensitivity was measured against 200 independently written breaking changes (seeded/) and "
+        "the interleaving. Sensitivity was measured against 240 independently written breaking changes (seeded/) and "
         "false-alarm resistance against 56 property-preserving rewrites (benign/). "
         "It does not establish absence of counter-examples outside what was explored. ")
 NOTE = ("Trusted base: CPython, hashlib/hmac (SHA-256/512, OpenSSL RIPEMD-160), unicodedata, hypothesis, and the reference "
@@ -21,32 +21,36 @@ CHECKS = {
             "Parents from scalar classes built three ways, indexes on both sides of 2^31, multi-level paths, and chosen PRF "
             "outputs (child key 1, n-1, leading zeros, wrap past n); compares key/chain code/depth/index/fingerprint and "
             "both printed strings, observes the HMAC key/data layout directly, and derives from distinct and shared "
-            "parents on 2..3 threads under the deterministic scheduler.", "5/C01"),
+            "parents on 2..3 threads under the deterministic scheduler; duplicates of derived nodes (copy, deepcopy, pickle) "
+            "and index lists edited in place between calls.", "5/C01"),
     "C02": ("differential PBT: public vs private derivation vs independent CKDpub",
             "Normal paths of length 0..6 from three constructions of the public parent, compared after every step with the "
             "implementation's private side and with own point addition (lists, tuples, iterators; the parent with the "
             "negated key in the same process); hardened indexes must be refused by ckd, derive_path and generate_children "
             "(also after the private twin derived them, at parent depth 255, and for bulk intervals straddling 2^31); "
             "threads on a shared public node under a deterministic scheduler; leading-zero-x children searched for; nodes "
-            "built with parent=<object>; public data held by the private node class must still refuse hardened children.",
+            "built with parent=<object> or from bytearrays, parents parsed from ypub/zpub strings; public data held by the "
+            "private node class must still refuse hardened children; a frozen table of parents whose fingerprints collide.",
             "5/C02"),
     "C03": ("differential PBT over Unicode text vs explicit PBKDF2/HMAC model",
             "Arbitrary and NFKD-sensitive text (measured class histogram; case variants of real sentences; boundary-shifted "
             "mnemonic/passphrase pairs), seeds of 0..128 bytes incl. leading zeros and hex-looking ones, all constructors "
             "incl. new_wallet and the four CLI constructors (passphrase option and --testnet in every position/spelling: "
-            "accepted lines must honour them), both networks.", "5/C03"),
+            "accepted lines must honour them), from_entropy_bits with a passphrase, lone-surrogate strings (must be refused), "
+            "both networks.", "5/C03"),
     "C04": ("round-trip PBT through a frozen official word list + exhaustive length sweep",
             "All five sizes with patterned/uniform entropy decoded word by word; every other byte length 0..64 enumerated; "
             "whitespace/odd-length hex judged by result; the random sentence generators driven through a scripted random "
             "source substituted from outside (drawn value must be encoded exactly; bit sizes 0..520 other than the five "
             "refused); wallet-level hex entry points; concurrent encodings under the deterministic scheduler; embedded "
-            "list pinned by two independent digests.", "5/C04"),
+            "list pinned by two independent digests; radix-prefixed hex; cold-start threads.", "5/C04"),
     "C05": ("differential PBT vs independent address decoders; exhaustive hash lengths",
             "Five address kinds x two networks x node forms x key classes (incl. a frozen table of leading-zero-x keys), "
             "request order generated on one key object; keys whose HASH160 starts with 0x00; public nodes holding an "
             "uncompressed key; script templates byte for byte (two scripts alive at once); RIPEMD-160/HASH160 for every "
             "length 0..1024 (0..4096 thorough), with reused mutable buffers and from several free-running threads; one "
-            "PublicKey object shared by threads asking for different forms (deterministic scheduler).", "5/C05"),
+            "PublicKey object shared by threads asking for different forms (deterministic scheduler); flags spelled 0/1 and type "
+            "names assembled at run time; the four helper encoders.", "5/C05"),
     "C06": ("model-based PBT of paper-wallet records vs independent BIP32/44/49/84 derivation",
             "Sources (mnemonic+passphrase, seed, xprv), networks, accounts incl. 2^31-1 side, intervals incl. empty/single, "
             "repeated generate() on one wallet (first record re-read afterwards); master imported under all six private "
@@ -61,7 +65,8 @@ CHECKS = {
             "probed (installed before the library is imported) to count bytes requested; reseed pairs must differ; per-bit "
             "variation incl. the top bit over >= 96 samples per api x length (false-alarm probability < 1e-24); fault "
             "injection: the OS source raising must not yield a wallet; an invalid first master key must not make the "
-            "creation fall back to the seedable PRNG.", "5/C08"),
+            "creation fall back to the seedable PRNG; a scripted OS stream in which every consumed bit is inverted in turn "
+            "(at least ENT bits must influence the sentence).", "5/C08"),
     "C09": ("round-trip + constructed-rejection PBT vs own secp256k1",
             "Scalars incl. low-byte-01 class through every constructor, four WIF flavours, both SEC forms; bad scalars at "
             "every construction site; every length 0..70; off-curve encodings decided by own Legendre symbol; after each "
@@ -71,7 +76,8 @@ CHECKS = {
             "Leading-zero construction, strings over the alphabet, each checksum byte corrupted alone, truncations, string "
             "edits incl. look-alikes, valid-then-corrupted decode order; byte-level clause also driven by coverage-guided "
             "atheris/libFuzzer campaigns with the reference decoder as in-target oracle; values next to powers of 58 and "
-            "256; cold-start clause: a fresh interpreter whose first Base58 calls run on several threads.", "5/C10"),
+            "256; cold-start clause: a fresh interpreter whose first Base58 calls run on several threads; white space and "
+            "non-ASCII look-alikes around valid strings; the caller's bytearray after encoding.", "5/C10"),
     "C11": ("differential PBT vs GF(32) Bech32 model + complete weight<=4 error enumeration",
             "All (version,length) pairs exhaustively; one-rule-at-a-time rejections with valid checksums for arbitrary "
             "constants; all 2,390,287 error patterns of weight <= 2 over 71 positions have distinct syndromes (so none of "
@@ -107,7 +113,8 @@ CHECKS = {
             "Lists of length 0..5 over [0,2^32), both markers and roots, lookups on two wallets vs independent derivation, "
             "malformed strings (root/junk/range/empty), 6..12-level paths (one listed known finding); an independent path "
             "tokenizer as oracle for hypothesis- and atheris-generated strings; lookups on wallets rooted below the master; "
-            "by_path / bip85.entropy lookups from several threads on one wallet.", "5/C17"),
+            "by_path / bip85.entropy lookups from several threads on one wallet; path objects edited after parsing; nodes "
+            "that outlive a temporary wallet.", "5/C17"),
     "C18": ("fault-sequence PBT with chosen PRF outputs vs BIP32's validity predicate",
             "IL in {n, n+1, 2^256-1, uniform>=n, n-k} must raise (private, public, master, BIP85 secrets) and valid "
             "neighbours must equal the reference; invalid output at a generated level of derive_path, inside bulk "
@@ -119,7 +126,8 @@ CHECKS = {
     "C20": ("PBT over structured argv intents run through main() in process, vs fresh API call",
             "Five sub-commands, option order/spelling, file path states, one fault at a validator bound or none; outcome "
             "oracle on status/stdout/files; the complete fault x file-state grid; sentinel siblings of the requested file; "
-            "named pipes and /dev/null as --file; a closed stdout (EPIPE) on the real entry point; subprocess re-runs "
+            "named pipes, /dev/null and symlinked-directory/.. paths as --file; a closed stdout (EPIPE) on the real entry point; "
+            "format-invalid values (word counts, sizes, key length) must not be accepted; subprocess re-runs "
             "through the real entry point (one listed known finding).", "5/C20"),
 }
 NOT_YET = {}
